@@ -1,5 +1,7 @@
 package main
 
+import "fmt"
+
 func registerAll() {
 	registerWorld(evidWorld{})
 	registerWorld(netWorld{})
@@ -110,7 +112,7 @@ func registerAll() {
 		Rule: regRule + "For C07 each dispatch is compared with a reference dispatch over the model register (declared name -> registered kind; nothing declared -> profile 1; unregistered or non-string value -> error) and with decoding the same bytes straight into a fresh NewClaims(declared) instance and validating it. non-trivial = at least one accepted token whose reported profile was checked, with an extra profile registered; distinct as for C16",
 		Real: commonReal, Stubs: stubsReg,
 		Assumptions: []string{"documents the property leaves open (profile claim null in CBOR, both profiles' members, a registered name under another profile's member) get only the weak invariant: never decoded as a profile other than a declared one or the default"},
-		MustProbes: []string{"accepted_token_profile_checked", "dispatch_expect_error", "dispatch_expect_p1", "dispatch_expect_p2", "dispatch_expect_xp1", "dispatch_expect_xp2", "dispatch_expect_own", "dispatch_weak"},
+		MustProbes:  []string{"accepted_token_profile_checked", "dispatch_expect_error", "dispatch_expect_p1", "dispatch_expect_p2", "dispatch_expect_xp1", "dispatch_expect_xp2", "dispatch_expect_own", "dispatch_weak"},
 	}
 
 	props["C17"] = &propSpec{
@@ -122,5 +124,23 @@ func registerAll() {
 			"the Go race detector keeps a bounded access history per memory word; runs are short to keep the window small, and the result-equality oracle does not depend on it",
 			"operations are pure functions of private or read-only shared inputs (signatures are deterministic), so concurrent and sequential results must be equal"},
 		MustProbes: []string{"switch_into_task_mid_call", "overlap_on_same_shared_object", "switches"},
+	}
+
+	evidenceExtra["C02"] = func(total *workerOut) map[string]any {
+		return map[string]any{"exhaustive_subspaces": []string{fmt.Sprintf("every single-bit flip of %d tokens (one per algorithm x profile, runs 0..13): %d flips delivered to the verifier holding the signer's key",
+			total.Probes["bitsweep_tokens"], total.Probes["bitsweep_flips"])}}
+	}
+	evidenceExtra["C11"] = func(total *workerOut) map[string]any {
+		return map[string]any{"exhaustive_subspaces": []string{"runs 0..16: every byte-string setter (implementation id, boot seed, nonce, instance id with type byte 0x01 and 0x02 on P1, P2, XP2; measurement value and signer id on a component) x every length 0..80"}}
+	}
+	sweeps := func(total *workerOut) map[string]any {
+		return map[string]any{"exhaustive_subspaces": []string{fmt.Sprintf("runs 0..29: truncation at every offset (%d prefixes) and substitution of CBOR head bytes (%d substitutions; every 5th value in the quick tier, all 255 in the thorough tier) of one message per kind x profile",
+			total.Probes["truncsweep_offsets"], total.Probes["headsweep_substitutions"])}}
+	}
+	evidenceExtra["C05"] = sweeps
+	evidenceExtra["C06"] = sweeps
+	evidenceExtra["C17"] = func(total *workerOut) map[string]any {
+		return map[string]any{"interleavings_measure": "distinct_nontrivial counts distinct hashes of the recorded schedule (run-length list of task ids per yield point) together with the operation lists",
+			"context_switches": total.Faults["sched.switch"], "yield_points_executed": total.Steps}
 	}
 }
